@@ -39,7 +39,7 @@ fn interval() -> impl Strategy<Value = (Option<f64>, Option<f64>)> {
 }
 
 fn strategy(maxdim: usize) -> BoxedStrategy<Case> {
-    (1..=maxdim, 1..=maxdim)
+    (sized(maxdim, maxdim + 2), sized(maxdim, maxdim + 2))
         .prop_flat_map(|(n, k)| {
             (
                 (poly_spec(n, 1, 6), poly_spec(n, 1, 4), proptest::collection::vec(poly_spec(n, 1, 3), 0..3)),
